@@ -223,7 +223,11 @@ ADDENDA = {
            '(interval analysis; undecided loops are listed, not claimed); results of tool functions that can return NULL '
            'are tested before use; integers from the code file are bounded before they are added to a pointer; in-place '
            'insertion into a buffer of unknown size only behind a capacity comparison; a length derived from a function '
-           'argument is not narrowed before it was bounded.',
+           'argument is not narrowed before it was bounded. Data statements ask for room in the code buffer before their '
+           'argument loop stores into it, bulk fills compare with the buffer\'s current size, buffer sizes are computed '
+           'in the wide integer type; a failed read of a record header does not return to the caller; values that own a '
+           'string buffer are copied, never assigned as structures; the line buffer is grown before #define expansion '
+           'lengthens it.',
     'C04': ' Also: line bytes are written straight to the file only after the write-behind buffer was flushed.',
     'C05': ' Also: the measuring pass updates start/stop/granularity only for records the copy selects; the target offset of '
            'a record depends on the same lane parameters as the byte-lane filter; dimension check of address/byte arithmetic.'
@@ -237,16 +241,19 @@ ADDENDA = {
     'C08': ' Also: every operator handler applies the C operator of its symbol to (left, right); logical operators use truth '
            'values only; a letter is a number-system marker exactly when it is no digit of the current RADIX (linear normal '
            'form of the comparison), and every handler that recognises a marker letter next to the digits reaches '
-           '"return True" only through that comparison.',
+           '"return True" only through that comparison. Conversion flag bits that are produced combined are consumed '
+           'independently.',
     'C09': ' Also: no carry/borrow/length adjustment of a fill or length counter is overwritten before it can be observed '
            '(lost update) in the data-definition modules.'
            ' The range check of a data value is skipped only under FirstPassUnknown|Questionable; string characters reach the emitters as unsigned bytes.'
            ' Translated strings are handled by length, never by C-string functions; the half-precision rounding decision reads all cut-off bits.'
-           ' A cached program counter is not used after a call that can advance the counter.',
+           ' A cached program counter is not used after a call that can advance the counter.'
+           ' Carry and borrow between word count and position inside the word come in pairs; the packing position of '
+           'string characters restarts for every string argument.',
     'C10': ' Also: STRUCT set-up touches only the struct pseudo segment; rounding of the program counter is done in the '
            'unsigned address type; ORG and PHASE hold an address operand in the address type; logical and physical addresses '
            'are not mixed; RESTORE actions are independent of each other. A cached program counter is not used after a '
-           'call that can advance the counter.',
+           'call that can advance the counter. Carry and borrow between word count and position inside the word come in pairs.',
     'C11': ' Also: default values are never applied because of the argument text; the argument list and its counter move '
            'together and every formal parameter is substituted; terminator-aware growth of line buffers. A loop body is '
            'queued only for a positive iteration count; body processors clear the first-line flag their restorer tests. '
@@ -254,18 +261,20 @@ ADDENDA = {
     'C13': ' Also: nothing but definitions (and look-ups of the name being defined) happens inside a global-scope escape; '
            'section/forward chain searches stop at the first match.'
            ' Stored user-defined names are compared exactly (case folding only through the CaseSensitive-guarded up-casing).'
-           ' PUSHV and POPV walk the stack list by the same ordering.',
+           ' PUSHV and POPV walk the stack list by the same ordering. The section qualifier of a PUBLIC/GLOBAL/FORWARD name is set per name.',
     'C14': ' Also: no generator consumes shared scratch that only other targets assign; 4004 JCN/ISZ take the page from the '
            'address behind the instruction; masks cover range-checked values.'
            ' 6502 branch distances are held in 16 bits (wrap at 64K). Overflow tests on displacement adjustments compare '
-           'the operands the adjustment actually used; AVR wrap masks are derived from the word-address limit.',
+           'the operands the adjustment actually used; AVR wrap masks are derived from the word-address limit. 65xx: '
+           'zero-page shortening only without a size prefix.',
     'C15': ' Also: assembler and disassembler use the same page reference for 4004 JCN/ISZ. The disassembler prints labels, '
            'ORG and hex literals in the syntax the matching assembler accepts; address wrap uses a 2^n-1 mask and the '
            'next-address slots are read only where they were written. The image loaders append a record to a chunk only '
            'where its address equals the chunk end.',
     'C16': ' Also: a generator\'s per-line carrier state is copied only behind the non-empty-statement test. No string '
            'literal continues behind an embedded NUL and a divider set with the blank has the tab; the CR of a CR-LF pair '
-           'is looked for in the collected line, not only in the last chunk read.',
+           'is looked for in the collected line, not only in the last chunk read. No expression is evaluated while the '
+           'labels local to a macro expansion are switched off.',
     'C17': ' Also: ChkIO() on report outputs stands under a failure test or after errno = 0, so that a report option cannot '
            'abort the assembly through a stale errno.'
            ' Formatted text that is handed back to the caller as a value does not depend on a report option; generated symbol names use only %d/%s and %d ignores -SPLITBYTE.'
@@ -279,7 +288,8 @@ ADDENDA = {
            ' The Clear*/Reset* functions called between passes empty their lists on every path.',
     'C20': ' Also: ReadLnCont() advances the returned line count once per physical line, terminated or not; restorer/constructor '
            'pairing of the position state. The iteration number of loop positions is normalised in one direction.',
-    'C02': ' -Werror promotion is tested inside the emitter on every path to the warning count.',
+    'C02': ' -Werror promotion is tested inside the emitter on every path to the warning count.'
+           ' The -E log is closed between source files only under a test of ErrorPath.',
 }
 for _k, _v in ADDENDA.items():
     CLAIMS[_k]['text'] = CLAIMS[_k]['text'] + _v
